@@ -166,6 +166,14 @@ def _run_rules(ctx):
                   where(b, oa.decision_bb), 'inside the proposal loop the compared score takes the accepted payload',
                   'the score passed to the decision as the current one is never updated with an accepted score inside the '
                   'proposal loop (it is fixed for the whole loop): later proposals are compared with a stale score')
+        # ... and nothing else: a value computed before the proposal loop (a snapshot of the score the loop started with) is
+        # not the score of the current state once a proposal of this loop has been accepted
+        stale = sorted({s2[1] for s2 in inner_srcs if s2[0] == 'outside'})
+        rep.check(not stale, 'R5', 'compared-score-never-falls-back-to-a-snapshot', where(b, oa.decision_bb),
+                  'inside the proposal loop the compared score takes only the accepted payload or keeps its own value',
+                  'inside the proposal loop the score passed to the decision as the current one is assigned a value that was '
+                  'computed before the loop (%s): after an acceptance in this loop it is no longer the score of the current '
+                  'state, so later proposals are compared with a stale score' % ', '.join(stale))
         rep.sample('%s: score_current=_%d defined from %s' % (b.path, sc, sorted({s[0] for s in srcs})))
 
 
@@ -273,6 +281,8 @@ def _sources(b, oa, sc, within=None):
                 continue
             if within is not None and bi not in within:
                 n += 1
+                if l != sc:
+                    out.append(('outside', '_%d (defined at bb%d, before the loop)' % (l, bi)))
                 continue
             n += 1
             if kind == 'call':
@@ -458,6 +468,46 @@ def _r3(ctx):
                   'reset_value restores something other than the captured old value (origin: %s %s)'
                   % (a1['o'], field_path(a1.get('p', []))))
         rep.sample('reset_value: SharedValue::set_value(self.value, self.old)')
+        # ... on EVERY execution where there is something to undo: a path of reset_value that skips the write must be a path on
+        # which the cell already holds the captured value (decided on witness pairs cell/old of representable values, down to one unit in the last place)
+        from fractions import Fraction
+        from ..celltables import eval_num
+        from ..optmodel import _mentions_opaque
+        sxr = SymEx(f, models=[recorder({'basis::SharedValue::set_value': 'cellwrite'})])
+        routs = sxr.run(sb_reset, [SYM('self')])
+        if routs and not sxr.aborted:
+            ulp = Fraction(1, 2 ** 52)          # all witness pairs are exactly representable f64 values
+            wit = [('old=cell+1', 7, Fraction(8)), ('old=cell-1', 7, Fraction(6)), ('cell=1,old=1+1ulp', 1, 1 + ulp),
+                   ('cell=1,old=1-ulp/2', 1, 1 - ulp / 2), ('cell=0,old=2^-130', 0, Fraction(1, 2 ** 130)),
+                   ('cell=0,old=-2^-130', 0, Fraction(-1, 2 ** 130)), ('cell=1e6,old=-1e6', 10 ** 6, Fraction(-10 ** 6))]
+            n_dec = 0
+            for lab, cell, old in wit:
+                env = {'self.value.value': Fraction(cell), 'self.' + OLD: old}
+                skipping, unknown = [], False
+                for o in routs:
+                    feas = True
+                    for c in o.pc:
+                        if c[0] != 'cond':
+                            continue
+                        try:
+                            if bool(eval_num(c[1], env)) != c[2]:
+                                feas = False
+                                break
+                        except (KeyError, ValueError, ZeroDivisionError):
+                            if _mentions_opaque(c[1]) and 'self.' not in repr(c[1]):
+                                continue
+                            unknown = True
+                    if feas and not any(e[0] == ('rec', 'cellwrite') for e in o.effects):
+                        skipping.append(o)
+                if unknown:
+                    rep.sample('reset_value, %s: a path condition could not be evaluated; not decided' % lab)
+                    continue
+                n_dec += 1
+                rep.check(not skipping, 'R3', 'reset-always-restores:' + lab, where(sb_reset),
+                          'every feasible path writes the cell',
+                          'with the cell at %s and the captured value %s (%s) reset_value has a feasible path that does not write '
+                          'the cell: the rejected proposal is not undone' % (cell, float(old), lab))
+            rep.sample('reset_value: %d paths; %d of %d witness pairs decided' % (len(routs), n_dec, len(wit)))
     # `old` has no other writer in the crate
     n = 0
     for body in f.bodies.values():
